@@ -14,8 +14,9 @@ import (
 )
 
 type Ledger struct {
-	Property string         `json:"property"`
-	Groups   map[string]int `json:"groups"` // group name -> obligations on the unchanged tree
+	Property  string         `json:"property"`
+	Unclaimed []string       `json:"unclaimed,omitempty"` // units swept but not claimed (with undischarged obligations on the unchanged tree)
+	Groups    map[string]int `json:"groups"`               // group name -> obligations on the unchanged tree
 	Note     string         `json:"note,omitempty"`
 }
 
@@ -69,6 +70,8 @@ type Report struct {
 	Bounded     []string
 	QDir        string
 	Timeout     int
+	Mode        string
+	Only        string
 }
 
 type Outcome struct {
@@ -345,8 +348,11 @@ func WriteLedger(verifDir, prop string, obls []*Obligation) {
 	for g, v := range ok {
 		if v && n[g] > 0 {
 			l.Groups[g] = n[g]
+		} else if !v && strings.Contains(g, "/lint:") {
+			l.Unclaimed = append(l.Unclaimed, groupFunc(g))
 		}
 	}
+	sort.Strings(l.Unclaimed)
 	b, _ := json.MarshalIndent(l, "", " ")
 	os.MkdirAll(filepath.Join(verifDir, "ledger"), 0o755)
 	os.WriteFile(filepath.Join(verifDir, "ledger", prop+".json"), b, 0o644)
